@@ -704,3 +704,81 @@ func RuleES1(c *Ctx) {
 	}
 	sc.End()
 }
+
+// RuleWQ1: where an unquoted parameter ends depends on the current byte alone. The bare
+// state (the target of the arms that begin a Parameter lexeme on a byte other than '"')
+// ends the lexeme only on arms that are unconditional for their byte set: no look-back
+// into the data and no data-dependent predicate, and at the byte before the one that ended
+// it. A bare value is then cut at the first delimiter byte and nowhere else, which is
+// what "a value that needs no quotes reads the same with them" rests on; an end that also
+// depends on the neighbours (`//` unless after ':') cuts values that quoting keeps whole.
+func RuleWQ1(c *Ctx) {
+	m, _, sc, ok := scannerBase(c, "WQ1", "the unquoted-parameter state ends the Parameter lexeme only on arms decided by the current byte alone (no look-back, no data-dependent predicate), at the previous byte", 1)
+	if !ok {
+		return
+	}
+	quote := scanpds.Of('"')
+	bare := map[int]bool{}
+	for _, st := range m.States {
+		for _, p := range st.Paths {
+			if p.Out == scanpds.OutErr || !p.Set.And(quote).Empty() {
+				continue
+			}
+			begins := false
+			tgt := -1
+			for _, e := range p.Effects {
+				if e.Kind == scanpds.EEvent && m.Begin[e.Ev] && m.LexKind[e.Ev] == "Parameter" && e.Off == 0 {
+					begins = true
+					tgt = -1
+				}
+				if e.Kind == scanpds.EGoto && begins {
+					tgt = e.Fn
+				}
+			}
+			if begins && tgt >= 0 {
+				bare[tgt] = true
+			}
+		}
+	}
+	if len(bare) == 0 {
+		sc.Undecided("bare-state", "-", "unresolved anchor: no arm begins a Parameter lexeme on a byte other than '\"'")
+		sc.End()
+		return
+	}
+	for id := range bare {
+		st := m.States[id]
+		ends := 0
+		for _, p := range st.Paths {
+			var end *scanpds.Effect
+			readBack := false
+			for i, e := range p.Effects {
+				if e.Kind == scanpds.EEvent && m.End[e.Ev] && m.LexKind[e.Ev] == "Parameter" {
+					end = &p.Effects[i]
+				}
+				if e.Kind == scanpds.EReadBack {
+					readBack = true
+				}
+			}
+			if end == nil {
+				if readBack || p.May {
+					sc.Violation(st.Name+"["+p.Guards+"]", c.P.Pos(p.Pos), "inside an unquoted parameter the scanner looks at something other than the current byte: "+m.Describe(st, p))
+				}
+				continue
+			}
+			ends++
+			key := st.Name + "[" + p.Guards + "]"
+			switch {
+			case readBack || p.May:
+				sc.Violation(key, c.P.Pos(p.Pos), "an unquoted parameter is ended under a condition on the neighbouring bytes, not on the current byte alone: a bare value containing that byte pattern is cut where the quoted spelling is not - "+m.Describe(st, p))
+			case end.Off != 1:
+				sc.Violation(key, c.P.Pos(p.Pos), "an unquoted parameter is not ended at the byte before its delimiter: "+m.Describe(st, p))
+			default:
+				sc.Holds(key, c.P.Pos(p.Pos), "ends the parameter before the delimiter, decided by the current byte alone")
+			}
+		}
+		if ends == 0 {
+			sc.Violation(st.Name, c.P.Pos(st.Decl.Pos()), "the unquoted-parameter state never ends the Parameter lexeme")
+		}
+	}
+	sc.End()
+}
